@@ -121,11 +121,12 @@ Section Protocol.
   Qed.
 
   Lemma transition_spec : forall b since x isrec rf entries g1 g2 b' s' l' rep,
-    WF b -> since <= top b ->
+    WF b -> (x = b_epoch b -> since <= top b) ->
     transition b since (Some x) isrec rf entries g1 g2 = (b', s', l', rep) ->
     b' = apply_ws (apply_ws b g1) g2 /\ s' = s_none /\
     ((exists er, rep = PErr er /\ l_sub l' = false) \/
-     (exists pubs latest, rep = PLive entries pubs latest x rf /\ l' = mkL true latest x /\
+     (exists pubs latest, rep = PLive entries pubs latest x rf /\ (exists l0, pubs = vis_pubs l0) /\
+        l' = mkL true latest x /\
         x = b_epoch (apply_ws b g1) /\
         (b_epoch b' = b_epoch b -> latest = top b' /\ pubs = vis_pubs (changes b' since (top b'))))).
   Proof.
@@ -153,7 +154,7 @@ Section Protocol.
         { inversion H; subst. split; auto. split; auto. left. eexists; split; reflexivity. }
         destruct (merge (map to_mpub pubs) (map to_mpub (pubs_between b b1 ++ pubs_between b1 b2))) as [[out maxo] ok].
         destruct ok; cbn [negb] in H.
-        - inversion H; subst b' s' l' rep. split; auto. split; auto. right. do 2 eexists. split; [reflexivity|].
+        - inversion H; subst b' s' l' rep. split; auto. split; auto. right. do 2 eexists. split; [reflexivity|]. split; [eexists; reflexivity|].
           split; [reflexivity|]. split; [exact Hxb|].
           intros Hb. exfalso. pose proof (apply_ws_epoch_mono g1 b) as M1. pose proof (apply_ws_epoch_mono g2 b1) as M2.
           fold b1 in M1. fold b2 in M2, Hb. lia.
@@ -161,6 +162,11 @@ Section Protocol.
     pose proof (apply_ws_ext g1 b Ee1) as X1. fold b1 in X1.
     pose proof (WF_apply_ws g1 b WFb) as WF1. fold b1 in WF1.
     pose proof (ext_top _ _ X1) as T1.
+    assert (Hxe : x = b_epoch b1).
+    { unfold node_read_stream in Er.
+      destruct (broker_read_stream b1 since (Some x) (S tlimit)) as [|ps t0 e0] eqn:Eb; [discriminate|].
+      destruct (broker_read_spec _ _ _ _ _ _ _ Eb) as [_ [_ [Hx0 _]]]. apply Hx0; reflexivity. }
+    assert (Hs' : since <= top b) by (apply Hs; congruence). clear Hs. rename Hs' into Hs.
     destruct (node_read_fixed b1 since (Some x) (S tlimit) pubs t e WF1 ltac:(lia) ltac:(lia)
                 ltac:(unfold known; apply orb_true_r) Er) as [Ht [He [Hp Hx]]].
     specialize (Hx x eq_refl). subst t e.
@@ -176,7 +182,7 @@ Section Protocol.
     2:{ (* clear inside g2: nothing to claim about the new epoch *)
         destruct (merge (map to_mpub pubs) (map to_mpub (pubs_between b b1 ++ pubs_between b1 b2))) as [[out maxo] ok].
         destruct ok; cbn [negb] in H.
-        - inversion H; subst. split; auto. split; auto. right. do 2 eexists. split; [reflexivity|].
+        - inversion H; subst. split; auto. split; auto. right. do 2 eexists. split; [reflexivity|]. split; [eexists; reflexivity|].
           split; [reflexivity|]. split; [reflexivity|]. intros Hb. exfalso. fold b2 in Hb. congruence.
         - inversion H; subst. split; auto. split; auto. left. eexists; split; reflexivity. }
     pose proof (apply_ws_ext g2 b1 Ee2) as X2. fold b2 in X2.
@@ -197,7 +203,7 @@ Section Protocol.
         exists (o, chg b2 o). split; [reflexivity|]. apply in_or_app.
         destruct (le_lt_dec o (top b1)); [left; rewrite Hpubs|right]; apply changes_cover; lia. }
     rewrite Hm in H. cbn [negb] in H. rewrite <- Hx in H. inversion H; subst b' s' l' rep; clear H.
-    split; auto. split; auto. right. do 2 eexists. split; [reflexivity|]. split; [reflexivity|].
+    split; auto. split; auto. right. do 2 eexists. split; [reflexivity|]. split; [eexists; reflexivity|]. split; [reflexivity|].
     split; [exact Hx|]. intros _.
     assert (Hlatest : Nat.max (top b1) (Nat.max (N.to_nat (N.of_nat (if Nat.ltb since (top b2) then (top b2) else 0)))
                         match rev (map mk (seq (S since) ((top b2) - since))) with
